@@ -24,8 +24,14 @@ Record abi := {
   a_stack_base : Z;               (* offset (bytes) from the stack pointer at entry of the first stack argument *)
   a_callee_saved : list string;   (* preserved across calls ("belong to the caller", nonvolatile) *)
   a_caller_saved : list string;   (* scratch / volatile *)
-  a_either : list string          (* see above *)
+  a_either : list string;         (* see above *)
+  (* NOT from the ABI documents: the closed vocabulary of scalars, other than the translator's register
+     table and `temp_*` temporaries, that falcon's lifter for this architecture may emit (flags, special
+     registers kept outside the table, latches).  Any other scalar in lifted IL fails C20. *)
+  a_extras : list reg
 }.
+
+Definition flags1 (l : list string) : list reg := map (fun n => (n, 1)) l.
 
 (* System V ABI, Intel386 Architecture Processor Supplement (4th ed.), ch. 3 "Function Calling Sequence":
    "Registers and the Stack Frame": %ebp %ebx %edi %esi %esp belong to the calling function; %eax %ecx %edx
@@ -36,7 +42,8 @@ Definition abi_i386 : abi := {|
   a_args := []; a_ret := "eax"; a_retaddr := AStack 0; a_stack_base := 4;
   a_callee_saved := ["ebx"; "esi"; "edi"; "ebp"; "esp"];
   a_caller_saved := ["eax"; "ecx"; "edx"];
-  a_either := [] |}.
+  a_either := [];
+  a_extras := flags1 ["CF"; "PF"; "AF"; "ZF"; "SF"; "IF"; "DF"; "OF"] |}.
 
 (* System V ABI, AMD64 Architecture Processor Supplement (v1.0): 3.2.1 "Registers" (%rbp %rbx %r12-%r15
    belong to the caller, the rest to the callee), Figure 3.4 "Register Usage"; 3.2.3 "Parameter Passing"
@@ -49,7 +56,8 @@ Definition abi_amd64 : abi := {|
   a_caller_saved := ["rax"; "rcx"; "rdx"; "rsi"; "rdi"; "r8"; "r9"; "r10"; "r11";
                      "xmm0"; "xmm1"; "xmm2"; "xmm3"; "xmm4"; "xmm5"; "xmm6"; "xmm7";
                      "xmm8"; "xmm9"; "xmm10"; "xmm11"; "xmm12"; "xmm13"; "xmm14"; "xmm15"];
-  a_either := ["fs_base"; "gs_base"] |}.
+  a_either := ["fs_base"; "gs_base"];
+  a_extras := flags1 ["CF"; "PF"; "AF"; "ZF"; "SF"; "IF"; "DF"; "OF"] |}.
 
 (* System V ABI, MIPS RISC Processor Supplement (3rd ed.), ch. 3: Figure 3-18 "Processor Registers"
    ($2-$3 results, $4-$7 arguments, $8-$15 $24 $25 temporaries, $16-$23 and $30 saved, $29 stack pointer,
@@ -62,7 +70,9 @@ Definition abi_mips_o32 (e : endian) : abi := {|
   a_callee_saved := ["$s0"; "$s1"; "$s2"; "$s3"; "$s4"; "$s5"; "$s6"; "$s7"; "$fp"; "$sp"];
   a_caller_saved := ["$at"; "$v0"; "$v1"; "$a0"; "$a1"; "$a2"; "$a3";
                      "$t0"; "$t1"; "$t2"; "$t3"; "$t4"; "$t5"; "$t6"; "$t7"; "$t8"; "$t9"];
-  a_either := ["$zero"; "$k0"; "$k1"; "$gp"; "$ra"] |}.
+  a_either := ["$zero"; "$k0"; "$k1"; "$gp"; "$ra"];
+  (* HI / LO, and the branch-decision latch of the delay-slot translation *)
+  a_extras := [("$hi", 32); ("$lo", 32); ("branching_condition", 1)] |}.
 
 (* System V ABI, PowerPC Processor Supplement (1995), ch. 3: "Registers" (Figure 3-16: r0 r3-r12 volatile,
    r1 stack frame pointer, r2 reserved for system use, r13 small data area pointer, r14-r31 nonvolatile, LR CTR
@@ -75,7 +85,11 @@ Definition abi_ppc32 : abi := {|
   a_callee_saved := ["r1"; "r14"; "r15"; "r16"; "r17"; "r18"; "r19"; "r20"; "r21"; "r22"; "r23"; "r24";
                      "r25"; "r26"; "r27"; "r28"; "r29"; "r30"; "r31"];
   a_caller_saved := ["r0"; "r3"; "r4"; "r5"; "r6"; "r7"; "r8"; "r9"; "r10"; "r11"; "r12"];
-  a_either := ["r2"; "r13"; "lr"; "ctr"] |}.
+  a_either := ["r2"; "r13"; "lr"; "ctr"];
+  (* LR (kept outside PPC_REGISTERS), XER[CA], and the four bits of each CR field *)
+  a_extras := ("lr", 32) :: ("carry", 1) ::
+              flat_map (fun c => flags1 [c ++ "-lt"; c ++ "-gt"; c ++ "-eq"; c ++ "-so"])
+                       ["cr0"; "cr1"; "cr2"; "cr3"; "cr4"; "cr5"; "cr6"; "cr7"] |}.
 
 (* Procedure Call Standard for the Arm 64-bit Architecture (AAPCS64, IHI 0055): 6.1.1 "General-purpose
    registers" (r0-r7 parameter/result, r8 indirect result, r9-r15 temporary, r16 r17 IP0 IP1, r18 platform
@@ -93,7 +107,8 @@ Definition abi_aapcs64 (e : endian) : abi := {|
                      "v0"; "v1"; "v2"; "v3"; "v4"; "v5"; "v6"; "v7";
                      "v16"; "v17"; "v18"; "v19"; "v20"; "v21"; "v22"; "v23"; "v24"; "v25"; "v26"; "v27";
                      "v28"; "v29"; "v30"; "v31"];
-  a_either := ["x18"; "x30"; "v8"; "v9"; "v10"; "v11"; "v12"; "v13"; "v14"; "v15"] |}.
+  a_either := ["x18"; "x30"; "v8"; "v9"; "v10"; "v11"; "v12"; "v13"; "v14"; "v15"];
+  a_extras := flags1 ["n"; "z"; "c"; "v"] |}.
 
 (* the seven supported architectures, by the name their descriptor publishes *)
 Definition seven : list string := ["x86"; "amd64"; "mips"; "mipsel"; "ppc"; "aarch64"; "aarch64eb"].
